@@ -1,6 +1,8 @@
 (* C20_Corr.v — correspondence vocabulary for C20: a case is an input (tree on disk +
    --config scenario) together with what the implementation did.  Evaluated by
-   vm_compute in the generated cases files. *)
+   vm_compute in the generated cases files.  The file names of the trees are arbitrary byte
+   strings (streams names-* of the harness put them around every excluded extension); besides
+   P, [spec_violations] evaluates P_files, which judges every file of the tree on its own. *)
 From Verif Require Import Common C20_Model C20_Spec.
 Local Open Scope N_scope.
 
@@ -50,5 +52,7 @@ Definition obs_eqb (a b : obs) : bool :=
 Definition agrees (c : case) : bool := obs_eqb (model_obs c) (snd c).
 
 Definition mismatches (cs : list case) : list N := indices_where (fun c => negb (agrees c)) cs.
+(* the property predicate P and, file by file, P_files (every file of the tree is discovered /
+   asked for --config as often as the conditions on its own name, mode and directories say) *)
 Definition spec_violations (cs : list case) : list N :=
-  indices_where (fun c => negb (P (fst c) (snd c))) cs.
+  indices_where (fun c => negb (P (fst c) (snd c) && P_files (fst c) (snd c))) cs.
